@@ -113,7 +113,7 @@ def ExitsByCats (d : DocD) : Prop := ∀ n ∈ allNodes d, exitsByCats n = true
 
 /-- no contact-field reference carries a `type` (F-C05-a otherwise) -/
 def untypedAction : ActionD → Bool
-  | .setContactField _ _ _ t _ => (dropFalsy t).isNone
+  | .setContactField _ _ _ t _ => t.isNone
   | _ => true
 def UntypedFields (d : DocD) : Prop := ∀ n ∈ allNodes d, ∀ a ∈ n.actions, untypedAction a = true
 
